@@ -11,14 +11,16 @@ import (
 	"flag"
 	"fmt"
 	"go/ast"
-	"go/parser"
 	"go/printer"
 	"go/token"
+	"go/types"
 	"os"
 	"path/filepath"
 	"sort"
 	"strconv"
 	"strings"
+
+	"golang.org/x/tools/go/packages"
 )
 
 const shimImport = "github.com/irai/packet/verifshim/"
@@ -37,6 +39,7 @@ var importMap = map[string][2]string{ // original path -> (local name, shim pack
 }
 
 type rewriter struct {
+	info      *types.Info
 	fset      *token.FileSet
 	file      string
 	needSched bool
@@ -155,10 +158,27 @@ func (r *rewriter) stmt(s ast.Stmt) ast.Stmt {
 		n.Body.List = append([]ast.Stmt{r.fuelStmt()}, n.Body.List...)
 		r.stats["loops"]++
 	case *ast.RangeStmt:
+		isMap, isChan := false, false
+		if r.info != nil {
+			if t := r.info.TypeOf(n.X); t != nil {
+				switch t.Underlying().(type) {
+				case *types.Map:
+					isMap = true
+				case *types.Chan:
+					isChan = true
+				}
+			}
+		}
+		if isChan {
+			r.errorf(n.Pos(), "range over a channel is not supported")
+		}
 		n.X = r.expr(n.X)
 		r.block(n.Body)
 		n.Body.List = append([]ast.Stmt{r.fuelStmt()}, n.Body.List...)
 		r.stats["loops"]++
+		if isMap {
+			return r.mapRange(n)
+		}
 	case *ast.SwitchStmt:
 		n.Init = r.stmt(n.Init)
 		if n.Tag != nil {
@@ -175,7 +195,13 @@ func (r *rewriter) stmt(s ast.Stmt) ast.Stmt {
 		}
 		n.Body = r.stmts(n.Body)
 	case *ast.LabeledStmt:
-		n.Stmt = r.stmt(n.Stmt)
+		inner := r.stmt(n.Stmt)
+		if _, wasRange := n.Stmt.(*ast.RangeStmt); wasRange {
+			if _, stillRange := inner.(*ast.RangeStmt); !stillRange {
+				r.errorf(n.Pos(), "labeled range over a map is not supported")
+			}
+		}
+		n.Stmt = inner
 	case *ast.SendStmt:
 		r.needSched = true
 		r.stats["send"]++
@@ -199,6 +225,45 @@ func (r *rewriter) stmt(s ast.Stmt) ast.Stmt {
 		r.errorf(s.Pos(), "unsupported statement %T", s)
 	}
 	return s
+}
+
+// mapRange makes the iteration order of a map deterministic (sorted keys): Go's randomised order is a source of
+// nondeterminism that the explorer must own.
+//
+//	for k, v := range M { body }  =>  { _vm := M; for _, k := range vsched.MapKeys(_vm) { v, _vok := _vm[k]; if !_vok { continue }; body } }
+func (r *rewriter) mapRange(n *ast.RangeStmt) ast.Stmt {
+	r.needSched = true
+	r.stats["maprange"]++
+	if n.Tok == token.ASSIGN {
+		r.errorf(n.Pos(), "range over a map with '=' is not supported")
+		return n
+	}
+	vm := r.newTmp("m")
+	var key *ast.Ident
+	if id, ok := n.Key.(*ast.Ident); ok && id.Name != "_" {
+		key = ast.NewIdent(id.Name)
+	} else {
+		key = r.newTmp("k")
+	}
+	var pre []ast.Stmt
+	if id, ok := n.Value.(*ast.Ident); ok && id.Name != "_" {
+		okv := r.newTmp("ok")
+		pre = append(pre,
+			&ast.AssignStmt{Lhs: []ast.Expr{ast.NewIdent(id.Name), okv}, Tok: token.DEFINE, Rhs: []ast.Expr{&ast.IndexExpr{X: ast.NewIdent(vm.Name), Index: ast.NewIdent(key.Name)}}},
+			&ast.IfStmt{Cond: &ast.UnaryExpr{Op: token.NOT, X: ast.NewIdent(okv.Name)}, Body: &ast.BlockStmt{List: []ast.Stmt{&ast.BranchStmt{Tok: token.CONTINUE}}}})
+	} else {
+		okv := r.newTmp("ok")
+		pre = append(pre,
+			&ast.AssignStmt{Lhs: []ast.Expr{ast.NewIdent("_"), okv}, Tok: token.DEFINE, Rhs: []ast.Expr{&ast.IndexExpr{X: ast.NewIdent(vm.Name), Index: ast.NewIdent(key.Name)}}},
+			&ast.IfStmt{Cond: &ast.UnaryExpr{Op: token.NOT, X: ast.NewIdent(okv.Name)}, Body: &ast.BlockStmt{List: []ast.Stmt{&ast.BranchStmt{Tok: token.CONTINUE}}}})
+	}
+	loop := &ast.RangeStmt{Key: ast.NewIdent("_"), Value: key, Tok: token.DEFINE,
+		X:    &ast.CallExpr{Fun: sel("vsched", "MapKeys"), Args: []ast.Expr{ast.NewIdent(vm.Name)}},
+		Body: &ast.BlockStmt{List: append(pre, n.Body.List...)}}
+	return &ast.BlockStmt{List: []ast.Stmt{
+		&ast.AssignStmt{Lhs: []ast.Expr{vm}, Tok: token.DEFINE, Rhs: []ast.Expr{n.X}},
+		loop,
+	}}
 }
 
 func (r *rewriter) goStmt(n *ast.GoStmt) ast.Stmt {
@@ -411,26 +476,35 @@ func main() {
 	overlay := map[string]string{}
 	total := map[string]int{}
 	var allErrs []string
-	for _, dir := range instrumentedDirs {
-		abs := filepath.Join(*repo, dir)
-		entries, err := os.ReadDir(abs)
-		if err != nil {
-			fmt.Fprintln(os.Stderr, "vinstr:", err)
-			os.Exit(2)
+	var patterns []string
+	for _, d := range instrumentedDirs {
+		if d == "." {
+			patterns = append(patterns, ".")
+		} else {
+			patterns = append(patterns, "./"+d)
 		}
-		for _, e := range entries {
-			name := e.Name()
-			if e.IsDir() || !strings.HasSuffix(name, ".go") || strings.HasSuffix(name, "_test.go") || excluded[name] {
+	}
+	cfg := &packages.Config{Mode: packages.NeedName | packages.NeedFiles | packages.NeedCompiledGoFiles | packages.NeedSyntax | packages.NeedTypes | packages.NeedTypesInfo | packages.NeedImports | packages.NeedDeps,
+		Dir: *repo, BuildFlags: []string{"-tags=verif"}, Env: append(os.Environ(), "GOFLAGS=-mod=mod", "GOPROXY=off", "GOSUMDB=off", "GOTOOLCHAIN=local")}
+	pkgs, err := packages.Load(cfg, patterns...)
+	if err != nil {
+		fmt.Fprintln(os.Stderr, "vinstr: load:", err)
+		os.Exit(2)
+	}
+	for _, p := range pkgs {
+		for _, e := range p.Errors {
+			// a tree that does not type check does not build either: go build will report it
+			fmt.Fprintln(os.Stderr, "vinstr: warning:", e)
+		}
+		for fi, f := range p.Syntax {
+			src := p.CompiledGoFiles[fi]
+			name := filepath.Base(src)
+			rel, _ := filepath.Rel(*repo, filepath.Dir(src))
+			if !strings.HasSuffix(name, ".go") || strings.HasSuffix(name, "_test.go") || excluded[name] || strings.HasPrefix(rel, "..") {
 				continue
 			}
-			src := filepath.Join(abs, name)
-			fset := token.NewFileSet()
-			f, err := parser.ParseFile(fset, src, nil, parser.ParseComments)
-			if err != nil {
-				// a tree that does not parse does not build either: leave the file alone and let go build report it
-				fmt.Fprintln(os.Stderr, "vinstr: parse error, file left unchanged:", err)
-				continue
-			}
+			dir := rel
+			fset := p.Fset
 			// keep build constraints, drop every other comment (positions are not preserved by the rewrite)
 			var header []string
 			for _, cg := range f.Comments {
@@ -462,7 +536,7 @@ func main() {
 				}
 				return true
 			})
-			r := &rewriter{fset: fset, file: src, stats: map[string]int{}}
+			r := &rewriter{info: p.TypesInfo, fset: fset, file: src, stats: map[string]int{}}
 			r.rewriteFile(f)
 			allErrs = append(allErrs, r.errs...)
 			for k, v := range r.stats {
